@@ -80,6 +80,9 @@ class InlineDefinedFuns:
         if is_definition_node(node):
             # we are about to inline the function into its own name
             return []
+        if node.is_leaf() and not is_var(node):
+            # the bare name of a function with parameters is not a term
+            return []
         res = get_defined_fun(node)
         if res == node:
             return []
